@@ -148,6 +148,10 @@ FIXED = [
     # variables whose names look like names a printer might invent for derivatives: a state x beside x_dot / xdot / der_x / dx
     "model F4 Real x; Real x_dot; Real xdot; equation der(x) = x_dot + 2 * xdot; x_dot = 3; xdot = 5; end F4;",
     "model F5 Real x; Real x_dot; Real der_x; Real dx; equation der(x) = -x; der(x_dot) = x + der_x; der_x = 2; dx = der(x) + 1; end F5;",
+    # a variable several component levels deep with descriptive instance names: one blank-free token of more than 80 characters
+    "model Th Real temperatureState; Real heatFlowIntoTheSegment; equation der(temperatureState) = -0.5 * temperatureState + heatFlowIntoTheSegment; "
+    "heatFlowIntoTheSegment = 2; end Th; model L1 Th heatExchangerSegmentNumberOne; end L1; model L2 L1 heatExchangerSegmentNumberTwo; end L2; "
+    "model F6 L2 heatExchangerSegmentNumberThree; end F6;",
 ]
 
 
@@ -187,7 +191,7 @@ def main():
                 break
     if payload.get("mode") == "bounded":
         print(json.dumps({"performed": True, "cases": n, "distinct_nontrivial": n, "failures": failures,
-                          "rule": "fixed precedence-critical models, models whose variables are named like derivatives (x_dot, xdot, der_x, dx), plus random nested expressions (seed %d, depth 3; + - * / ^ unary minus sin der): the generated module is executed with a stubbed OdeModel and every equation is compared numerically with lhs - rhs of an independent flatten(); state/parameter/constant/input/output lists compared with the prefixes" % seed,
+                          "rule": "fixed precedence-critical models, models whose variables are named like derivatives (x_dot, xdot, der_x, dx), a variable three component levels deep with long instance names, plus random nested expressions (seed %d, depth 3; + - * / ^ unary minus sin der): the generated module is executed with a stubbed OdeModel and every equation is compared numerically with lhs - rhs of an independent flatten(); state/parameter/constant/input/output lists compared with the prefixes" % seed,
                           "bound": "%d models" % n}))
     else:
         f = failures[0] if failures else None
